@@ -176,7 +176,10 @@ def r12_3(repo: Repo) -> RuleResult:
                 isinstance(x, ast.Call) and repo.canonical(f.module, x.func) in REDUCTIONS and x.args
                 and not isinstance(x.args[0], ast.Constant) and _operand_is_array(x.args[0])
                 for x in ast.walk(t)
-            ) or bool(names_in(t) & red_names)
+            ) or bool(names_in(t) & red_names) or any(
+                isinstance(x, ast.Call) and any(tg in red_funcs for tg in repo.resolve_call(f, x) if isinstance(tg, Func))
+                for x in ast.walk(t)
+            )
             if has_red:
                 found.setdefault((f.file, f.qualname), []).append((n.lineno, norm(t)))
     for (file, fn), sites in sorted(found.items()):
